@@ -9,6 +9,7 @@ import (
 	"os"
 	"runtime"
 	"runtime/debug"
+	"runtime/pprof"
 	"strings"
 	"sync"
 	"time"
@@ -23,7 +24,15 @@ func main() {
 	out := flag.String("out", "", "write partial evidence JSON here (default stdout)")
 	budget := flag.Duration("budget", 0, "soft time budget per worker; units stop cleanly with exhaustive:false")
 	par := flag.Int("par", runtime.NumCPU(), "max concurrent non-serial units")
+	prof := flag.String("cpuprofile", "", "write a CPU profile here")
 	flag.Parse()
+	if *prof != "" {
+		f, err := os.Create(*prof)
+		if err == nil {
+			pprof.StartCPUProfile(f)
+			defer pprof.StopCPUProfile()
+		}
+	}
 	if flag.NArg() < 2 {
 		fmt.Fprintln(os.Stderr, "usage: verifbin [flags] <id> <tier>")
 		os.Exit(2)
